@@ -226,6 +226,30 @@ def check_rule_kinds_contribute(ck, R):
 
 
 # --------------------------------------------------------------------------------- C01.R3
+def _copied_params(fa, expr, at, _seen=None):
+    """Parameters whose value can reach `expr` by plain copying (names, conditional expressions,
+    `or` / `and`), i.e. without passing through a call."""
+    seen = _seen if _seen is not None else set()
+    out = set()
+    if isinstance(expr, ast.IfExp):
+        return _copied_params(fa, expr.body, at, seen) | _copied_params(fa, expr.orelse, at, seen)
+    if isinstance(expr, ast.BoolOp):
+        for v in expr.values:
+            out |= _copied_params(fa, v, at, seen)
+        return out
+    if isinstance(expr, ast.Name):
+        for d in fa.df.reaching(at, expr.id):
+            if (d.node, d.name) in seen:
+                continue
+            seen.add((d.node, d.name))
+            if d.value is None:
+                if expr.id in fa.fi.params:
+                    out.add(expr.id)
+            else:
+                out |= _copied_params(fa, d.value, d.node, seen)
+    return out
+
+
 def check_digest_consumes_rules(ck, R):
     ck.rule(R, "the version digest consumes every collected rule: the iterated collection is the set filled by the "
                "traversal, filtered only by `hash is None`; the returned version is that digest", 4)
@@ -263,6 +287,32 @@ def check_digest_consumes_rules(ck, R):
         okh = okh and ("call:compute_hash" in ud or via_field)
     ck.ob(R, fa.key(lp.ast, "only-none-filter"), okh, "every non-None rule hash updates the digest" if okh else
           "a rule's hash can be skipped for a reason other than being None (or the digest is fed something else)", fa.where(lp.ast))
+    # the fold is injective: pieces are concatenated into one digest, so either every piece has a
+    # fixed width, or a delimiter / length goes in with each piece.  A piece that is a caller-chosen
+    # string (an explicit version, a supplied code hash) has no fixed width.
+    if len(ups) == 1:
+        delimited = any(isinstance(x, ast.BinOp) for x in ast.walk(ups[0].args[0])) or "format" in A.norm(ups[0].args[0]) \
+            or isinstance(ups[0].args[0], ast.JoinedStr) or any(isinstance(x, ast.JoinedStr) for x in ast.walk(ups[0].args[0]))
+        init = FA(ck, MF + ".__init__")
+        free = []
+        for cls in ck.repo.subclasses(ck.repo.cls(CH + ".HashRule")):
+            cf = ck.repo.try_func(cls.qual + ".compute_hash")
+            if cf is None:
+                continue
+            for r in [n for n in A.walk_body(cf.node) if isinstance(n, ast.Return) and n.value is not None]:
+                for at in [x for x in ast.walk(r.value) if isinstance(x, ast.Attribute) and A.norm(x.value).endswith("memento_fn")]:
+                    asg = [st for st in init.stmts(ast.Assign) if any(A.norm(t) == "self." + at.attr for t in st.targets)]
+                    for st in asg:
+                        ps = sorted(_copied_params(init, st.value, init.nodes(st)[0]))
+                        if ps and at.attr not in [f[0] for f in free]:
+                            free.append((at.attr, ps, cls.name))
+        okf = delimited or not free
+        ck.ob(R, fa.key(ups[0], "fold-injective:" + ",".join(f[0] for f in free)), okf,
+              "rule hashes are folded with a delimiter" if delimited else "every folded piece has a fixed width" if okf else
+              "rule hashes are concatenated into the digest with nothing between them, and %s are caller-chosen strings of any length: "
+              "moving a character between the explicit versions of two dependencies ('1','23' -> '12','3') leaves the caller's version "
+              "unchanged, so it serves a result computed by the earlier edition"
+              % ", ".join("%s.compute_hash's memento_fn.%s (constructor %s)" % (f[2], f[0], "/".join(f[1])) for f in free), fa.where(ups[0]))
     rets = fa.returns()
     okr = len(rets) == 1 and "call:hexdigest" in fa.deps(rets[0].value) and "call:sha256" in fa.deps(rets[0].value)
     ck.ob(R, fa.key(None, "returns-digest"), okr, "the version is the digest" if okr else "the returned version does not derive from the digest", fa.where())
@@ -605,8 +655,8 @@ def check_ordered_iteration(ck, R):
         f2 = FA(ck, m)
         at = {n.attr for r in f2.returns() for n in ast.walk(r.value) if isinstance(n, ast.Attribute)}
         fields[nm] = at
-    okf = fields["__lt__"] == fields["__eq__"] == fields["__hash__"] == {"key"}
-    ck.ob(R, base.qual + "::order-on-key", okf, "__lt__/__eq__/__hash__ all use `key`" if okf else
+    okf = fields["__lt__"] == fields["__eq__"] == fields["__hash__"] and "key" in fields["__eq__"]
+    ck.ob(R, base.qual + "::order-on-key", okf, "__lt__/__eq__/__hash__ all use %s" % sorted(fields["__eq__"]) if okf else
           "HashRule ordering/equality/hash use different fields %s: sorted() is not a total order on the rule set" % fields, A.loc(base, base.node))
     for cls in hash_rule_classes(ck):
         over = [n for n in ("__lt__", "__eq__", "__hash__") if n in cls.methods]
@@ -753,6 +803,76 @@ def check_update_protocol(ck, R):
     ig = FA(ck, MF + ".increment_global_fn_generation")
     oki = any(isinstance(s, ast.AugAssign) and isinstance(s.op, ast.Add) and A.norm(s.target).endswith("_global_fn_generation") and A.norm(s.value) == "1" for s in ig.stmts(ast.AugAssign))
     ck.ob(R, ig.key(None, "monotone"), oki, "the generation only grows" if oki else "increment_global_fn_generation does not add 1", ig.where())
+
+
+def _rule_identity_fields(ck):
+    base = ck.repo.cls(CH + ".HashRule")
+    out = None
+    for nm in ("__eq__", "__hash__"):
+        m = base.methods.get(nm)
+        ck.need(m is not None, "HashRule.%s not found" % nm)
+        at = {n.attr for r in A.walk_body(m.node) if isinstance(r, ast.Return) and r.value is not None
+              for n in ast.walk(r.value) if isinstance(n, ast.Attribute) and isinstance(n.value, ast.Name)}
+        out = at if out is None else out & at
+    return out or set()
+
+
+def _key_expr(ck, cls):
+    init = cls.methods.get("__init__")
+    if init is None:
+        return None, None
+    fa = FA(ck, init)
+    for c in fa.calls("__init__"):
+        k = A.kwarg(c, "key") or (c.args[0] if c.args else None)
+        if k is not None:
+            return fa, k
+    return fa, None
+
+
+def _symbol_directly_in(k):
+    """`symbol` is a direct operand of the key's format / concatenation (not handed to a helper that
+    may or may not use it)."""
+    if isinstance(k, ast.Call) and A.call_attr(k) == "format":
+        return any(isinstance(a, ast.Name) and a.id == "symbol" for a in k.args)
+    if isinstance(k, ast.JoinedStr):
+        return any(isinstance(v, ast.FormattedValue) and A.norm(v.value) == "symbol" for v in k.values)
+    if isinstance(k, ast.BinOp):
+        return _symbol_directly_in(k.left) or _symbol_directly_in(k.right)
+    return isinstance(k, ast.Name) and k.id == "symbol"
+
+
+def check_bindings(ck, R):
+    """A rule is reached through a SYMBOL and tracks the OBJECT behind it.  (1) every binding used by
+    the function needs its own watcher: if two symbols bound to one object collapse into one rule,
+    re-binding the other symbol is never noticed.  (2) which symbol is bound to which object is part
+    of the digest: either the key orders by symbol, or the hashed piece depends on the symbol."""
+    ident = _rule_identity_fields(ck)
+    for cls in hash_rule_classes(ck):
+        dc = cls.methods.get("did_change")
+        if dc is None:
+            continue
+        uses_resolver = any(A.call_attr(c) in ("resolver", "ref_resolver") for c in A.body_calls(dc.node)) or \
+            any(isinstance(n, ast.Attribute) and n.attr == "symbol" for n in ast.walk(dc.node))
+        if not uses_resolver:
+            continue
+        fa, k = _key_expr(ck, cls)
+        ck.need(k is not None, "%s: rule key expression not found" % cls.qual)
+        by_symbol = _symbol_directly_in(k)
+        ok1 = by_symbol or "symbol" in ident
+        ck.ob(R, cls.qual + "::every-binding-watched", ok1,
+              "rules of this kind are distinct per symbol (%s)" % ("key embeds the symbol" if by_symbol else "identity %s" % sorted(ident)) if ok1 else
+              "%s rules are identified by `%s` (identity fields %s), which names the object and not the symbol: with `g2 = g` and a caller using both, "
+              "one rule with one resolver survives in the rule set, so re-binding the other name in a running process is never noticed and the "
+              "old result is served" % (cls.name, A.short(k, 70), sorted(ident)), fa.where(k))
+        ch = cls.methods.get("compute_hash")
+        const_none = ch is not None and all(isinstance(r.value, ast.Constant) and r.value.value is None for r in A.walk_body(ch.node) if isinstance(r, ast.Return) and r.value is not None)
+        in_hash = ch is not None and any(isinstance(n, ast.Attribute) and n.attr == "symbol" for n in ast.walk(ch.node))
+        ok2 = by_symbol or in_hash or const_none
+        ck.ob(R, cls.qual + "::binding-in-digest", ok2,
+              "the digest distinguishes which symbol is bound to which object" if ok2 else
+              "%s: the rule key `%s` names the object reached and the hashed piece (compute_hash) does not depend on the symbol, so the version covers "
+              "only the SET of objects reached, not which name is bound to which: swapping two aliases (a = g; b = h -> a = h; b = g) leaves the "
+              "version unchanged and the stored result is served" % (cls.name, A.short(k, 70)), fa.where(k))
 
 
 def check_did_change(ck, R):
